@@ -202,6 +202,62 @@ func checkWasmCallClassification(p *core.Prog, r *core.Report, rule string) {
 		}
 	}
 	r.Check(okPanic, rule, "wasmCall/panic→deterministic", "a module that panicked yields an error wrapping ErrWasmDeterministicExec with %w", "the error built on the call.Err() != nil branch does not wrap the marker", p.Pos(fn.Pos()))
+	// the context whose state decides the classification is the very context the module was executed under (the
+	// per-block context, which carries the execution deadline) — not one captured earlier
+	var execCtx ssa.Value
+	core.Instrs(fn, func(in ssa.Instruction) {
+		if c, ok := in.(*ssa.Call); ok && c.Call.IsInvoke() && c.Call.Method.Name() == "ExecuteNewCall" {
+			execCtx = c.Call.Args[0]
+		}
+	})
+	okSame := execCtx != nil
+	nErr := 0
+	core.Instrs(fn, func(in ssa.Instruction) {
+		c, ok := in.(*ssa.Call)
+		if !ok || !isCtxErr(c) {
+			return
+		}
+		nErr++
+		if execCtx == nil || !(c.Call.Value == execCtx || sameExpr(c.Call.Value, execCtx, 3)) {
+			okSame = false
+		}
+	})
+	r.Check(okSame && nErr > 0, rule, "wasmCall/same-context", "the context consulted to classify a failed execution is the context the module was executed under (ExecuteNewCall's), so an expired per-block deadline is seen", fmt.Sprintf("%d ctx.Err() tests; all on the execution context: %v", nErr, okSame), p.Pos(fn.Pos()))
+	// when that context is a field of the executor, every run() stores the per-call context into it before wasmCall
+	if f, _ := core.LoadedField(execCtx); f != nil {
+		nRun := 0
+		for _, caller := range p.RepoFunctions() {
+			if p.IsTestFunc(caller) {
+				continue
+			}
+			calls := core.FindInstrs(caller, core.IsCallTo(p.FuncObj(pkgExec, "BaseExecutor.wasmCall")))
+			for _, cs := range calls {
+				nRun++
+				stored := false
+				var ctxParam *ssa.Parameter
+				for _, prm := range caller.Params {
+					if prm.Type().String() == "context.Context" {
+						ctxParam = prm
+					}
+				}
+				isStore := func(x ssa.Instruction) bool {
+					for _, w := range core.FieldWritesIn(caller, f) {
+						if w.Instr == x && w.Kind == core.WAssign && ctxParam != nil && core.SkipConv(w.Value) == ssa.Value(ctxParam) {
+							return true
+						}
+					}
+					return false
+				}
+				if _, ok := core.MustPassBefore(caller, isStore, func(x ssa.Instruction) bool { return x == cs }); ok {
+					stored = true
+				}
+				r.Check(stored, rule, "wasmCall/context-set@"+core.FuncName(caller), "the executor's context field is set to the per-call context on every path before the wasm call", "wasmCall reachable without `e.ctx = ctx`", p.Pos(cs.Pos()))
+			}
+		}
+		if nRun < 3 {
+			core.Undecide("wasmCall: only %d callers found", nRun)
+		}
+	}
 	r.Check(okCtx, rule, "wasmCall/cancelled→not-deterministic", "an execution failure under a cancelled context is not marked deterministic and wraps the context error with %w", "the error built on the ctx.Err() != nil branch carries the marker or drops the context error", p.Pos(fn.Pos()))
 	r.Check(okOther, rule, "wasmCall/failure→deterministic", "any other execution failure is marked deterministic with %w", "the error built on the remaining failure branch does not wrap the marker", p.Pos(fn.Pos()))
 	// no success after a failure: once call.Err() or err is non-nil, every return carries a non-nil error
